@@ -29,6 +29,7 @@ ALPHABET = [
     "RETR g", "RETR d/f", "RETR d", "RETR nope",
     "STOR n", "STOR g", "STOR d", "STOR nope/x", "APPE g", "APPE n",
     "REST 2", "REST 0", "REST", "REST x", "REST 3abc", "REST ²", "REST ٣", "REST -1", "REST  2", "REST 20",
+    "REST " + "9" * 4301,
     "ABOR", "FOO", "", "NOOP x", "QUIT",
 ]
 LOGINS = ["USER anonymous", "USER bob", "PASS pw", "PASS bad", "PWD", "USER nobody"]
